@@ -1,3 +1,4 @@
+import BsVerif.Gen.ValGuards
 /-!
 # C06 — executable model of BugStalker's value decoder
 
@@ -28,6 +29,10 @@ def toSigned (w : Nat) (n : Nat) : Int :=
 
 /-- Rust `as i64` on a 64-bit unsigned value -/
 def wrapI64 (i : Int) : Int := toSigned 8 (i % (2 ^ 64 : Nat)).toNat
+
+/-- `Die::discr_value` (unit/die.rs): `DW_AT_discr_value` of a `w`-byte constant form read with gimli's `sdata_value`,
+    i.e. SIGNED — the key under which `TypeParser` files a variant of a Rust enum -/
+def discrKey (w raw : Nat) : Int := toSigned w raw
 
 /-! ## the type graph (what `TypeParser` produced) -/
 
@@ -248,8 +253,8 @@ def assumeStruct (v : Val) (name : String) : Option Val :=
 
 /-! ## guards (constants mirrored from specialization/mod.rs; re-read from the source by tools/tables/valguards.py) -/
 
-def LEN_GUARD : Int := 10000
-def CAP_GUARD : Int := 10000
+def LEN_GUARD : Int := Gen.ValGuards.LEN_GUARD
+def CAP_GUARD : Int := Gen.ValGuards.CAP_GUARD
 def guardLen (l : Int) : Int := if l > LEN_GUARD then LEN_GUARD else l
 def guardCap (c : Int) : Int := if c > CAP_GUARD then CAP_GUARD else c
 
